@@ -63,7 +63,7 @@ pub(crate) fn spec_x(u: &NormalizedString, p: &NormalizedString, salt: &[u8; 32]
 
 /// C03: x = H(salt | H(U ":" P))
 #[kani::proof]
-#[kani::unwind(200)]
+#[kani::unwind(42)]
 #[kani::stub(core::str::from_utf8, verif_oracle::from_utf8_model)]
 fn c03_x() {
     let u = any_name(16);
@@ -78,7 +78,7 @@ fn c03_x() {
 
 /// C03: v = 7^x mod N as 32 zero-padded little-endian bytes (x taken as given: its own lemma is c03_x)
 #[kani::proof]
-#[kani::unwind(200)]
+#[kani::unwind(66)]
 #[kani::stub(core::str::from_utf8, verif_oracle::from_utf8_model)]
 #[kani::stub(crate::srp_internal::calculate_x, stub_x)]
 fn c03_verifier() {
@@ -118,7 +118,7 @@ fn c03_b_server() {
 
 /// C03: u = H(A | B)
 #[kani::proof]
-#[kani::unwind(200)]
+#[kani::unwind(42)]
 fn c03_u() {
     let a = any_valid_public_key();
     let b = any_valid_public_key();
@@ -204,7 +204,7 @@ fn low_zeros(s: &[u8; 32]) -> usize {
 
 /// C03: K = SHA_Interleave(S) for every S != 0, every count of low-order zero bytes.
 #[kani::proof]
-#[kani::unwind(200)]
+#[kani::unwind(42)]
 fn c03_interleave() {
     let s: [u8; 32] = kani::any();
     let z = low_zeros(&s);
@@ -223,7 +223,7 @@ fn c03_interleave() {
 
 /// C14: the interleave must not panic for ANY 32-byte secret (the client's S is chosen by the peer), incl. S = 0.
 #[kani::proof]
-#[kani::unwind(200)]
+#[kani::unwind(42)]
 fn c14_interleave_total() {
     let s: [u8; 32] = kani::any();
     let k = calculate_interleaved(&SKey::from_le_bytes(s));
@@ -240,7 +240,7 @@ fn spec_m1(xor: &[u8; 20], name: &NormalizedString, k: &[u8; 40], a: &[u8; 32], 
 
 /// C03: M1 = H(H(N) xor H(g) | H(U) | salt | A | B | K) with the built-in group
 #[kani::proof]
-#[kani::unwind(200)]
+#[kani::unwind(42)]
 #[kani::stub(core::str::from_utf8, verif_oracle::from_utf8_model)]
 fn c03_m1_builtin() {
     let name = any_name(16);
@@ -256,7 +256,7 @@ fn c03_m1_builtin() {
 
 /// C03: M2 = H(A | M1 | K)
 #[kani::proof]
-#[kani::unwind(200)]
+#[kani::unwind(42)]
 fn c03_m2() {
     let a = any_valid_public_key();
     let m1: [u8; 20] = kani::any();
@@ -269,7 +269,7 @@ fn c03_m2() {
 
 /// C03: H(N') xor H(g) for any announced group
 #[kani::proof]
-#[kani::unwind(200)]
+#[kani::unwind(42)]
 fn c03_xor_custom() {
     let n: [u8; 32] = kani::any();
     let g: u8 = kani::any();
@@ -287,7 +287,7 @@ fn c03_xor_custom() {
 
 /// C03: K = interleave(S(A, v, u(A,B), b)) - composition inside calculate_session_key
 #[kani::proof]
-#[kani::unwind(200)]
+#[kani::unwind(42)]
 #[kani::stub(crate::srp_internal::calculate_u, stub_u)]
 #[kani::stub(crate::srp_internal::calculate_S, stub_S)]
 #[kani::stub(crate::srp_internal::calculate_interleaved, stub_interleaved)]
@@ -392,7 +392,7 @@ pub(crate) fn stub_server_public_key(v: &Verifier, b: &PrivateKey) -> Result<Pub
 /// K = SHA_Interleave(32-byte zero-padded little-endian S), S = (A * v^u)^b mod N — real S, real interleave
 /// (only u is uninterpreted).
 #[kani::proof]
-#[kani::unwind(200)]
+#[kani::unwind(66)]
 #[kani::stub(crate::srp_internal::calculate_u, stub_u)]
 fn c01_server_s_to_k() {
     let a = any_valid_public_key();
